@@ -7,6 +7,7 @@ use std::panic;
 mod util;
 mod ops_dos;
 mod ops_path;
+mod ops_text;
 mod mkzip;
 
 pub use util::*;
@@ -16,6 +17,9 @@ fn dispatch(op: &str, args: &[Arg]) -> String {
         return r;
     }
     if let Some(r) = ops_path::dispatch(op, args) {
+        return r;
+    }
+    if let Some(r) = ops_text::dispatch(op, args) {
         return r;
     }
     "BADOP".to_string()
